@@ -50,10 +50,37 @@ func c17NoUnboundedBlocking(c *Ctx) {
 			}
 		}
 	}
+	// a constructor that only creates and configures the command: the functions that call it run it
+	for i := 0; i < len(roots); i++ {
+		r := roots[i]
+		if token.IsExported(r.Name()) && r.Signature.Recv() == nil {
+			continue
+		}
+		for _, fn := range w.Funcs {
+			if !w.IsProductFn(fn) || fn.Blocks == nil || fn == r {
+				continue
+			}
+			for _, ci := range allCalls(fn) {
+				if staticCallee(ci) == r {
+					dup := false
+					for _, x := range roots {
+						if x == fn {
+							dup = true
+						}
+					}
+					if !dup && len(roots) < 8 && fn.Pkg == r.Pkg {
+						roots = append(roots, fn)
+					}
+					break
+				}
+			}
+		}
+	}
 	if len(roots) == 0 {
 		c.Unk("runner/no-unbounded-blocking", "anchor: the function that creates the plugin process", "-", "no call of exec.CommandContext in the product packages")
 		return
 	}
+	total := 0
 	for _, root := range roots {
 		seen := map[*ssa.Function]bool{}
 		var bad []string
@@ -115,14 +142,14 @@ func c17NoUnboundedBlocking(c *Ctx) {
 		}
 		visit(root, 0)
 		key := "runner/no-unbounded-blocking/" + fnName(root)
-		if calls < 5 {
-			c.Unk(key, rule, w.FnPos(root), fmt.Sprintf("vacuity guard: only %d calls examined in the runner's call tree", calls))
-			continue
-		}
+		total += calls
 		detail := ""
 		if len(bad) > 0 {
 			detail = "an operation os/exec does not bound stands in the runner: " + strings.Join(bad, "; ") + " — a peer that does not cooperate keeps the call from returning after the context expired"
 		}
 		c.Check(len(bad) == 0, key, rule, w.FnPos(root), detail)
+	}
+	if total < 5 {
+		c.Unk("runner/no-unbounded-blocking#count", "vacuity guard: the runner's call tree is examined", "-", fmt.Sprintf("only %d calls examined", total))
 	}
 }
